@@ -20,7 +20,7 @@ OWNER = ('alice', None)
 SYMBOLS = ['activate', 'revoke:KEY_COMPROMISE', 'revoke:CA_COMPROMISE', 'revoke:SUPERSEDED',
            'revoke:UNSPECIFIED', 'revoke:CESSATION_OF_OPERATION', 'revoke:AFFILIATION_CHANGED',
            'revoke:PRIVILEGE_WITHDRAWN', 'destroy', 'encrypt', 'decrypt', 'sign',
-           'signature_verify', 'mac', 'derive_key', 'wrap', 'modify_name', 'get_attributes', 'get',
+           'signature_verify', 'mac', 'derive_key', 'derive_key_2', 'wrap', 'modify_name', 'get_attributes', 'get',
            'add_group', 'delete_name', 'set_sensitive', 'locate']
 
 VARIANTS = ([('sym', 'full'), ('sym', 'empty')] + [('sym', m.name) for m in rig.ALL_MASKS] +
@@ -62,6 +62,9 @@ def masks_of(label):
     return [M[label]]
 
 
+DERIVE_HELPER = {}     # wrap-helper uid -> uid of an object with the Derive Key bit (same store)
+
+
 def symbol_op(sym, uid, helper_uid, version):
     if sym == 'activate':
         return op_activate(uid)
@@ -88,6 +91,10 @@ def symbol_op(sym, uid, helper_uid, version):
         return op_mac(uid, b'message', cparams(cryptographic_algorithm=E.CryptographicAlgorithm.HMAC_SHA256))
     if sym == 'derive_key':
         return op_derive_key([uid], attributes_list=sym_attrs(length=128, masks=ALL_MASKS))
+    if sym == 'derive_key_2':
+        # the object under test first, then an object that does carry the Derive Key bit
+        return op_derive_key([uid, DERIVE_HELPER.get(helper_uid, helper_uid)],
+                             attributes_list=sym_attrs(length=128, masks=ALL_MASKS))
     if sym == 'wrap':
         return op_get(helper_uid, wrap=wrap_spec(uid))
     if sym == 'modify_name':
@@ -173,7 +180,7 @@ def check_step(ctx, variant, kind, masks, sym, before, after, res, tag):
                               % (use, kind, bname, [m.name for m in masks]), detail)
         else:
             ctx.count('uses_refused')
-    if base == 'derive_key' and ok and M.DERIVE_KEY not in masks:
+    if base in ('derive_key', 'derive_key_2') and ok and M.DERIVE_KEY not in masks:
         ctx.violation('use:derive_key|%s|%s|nobit' % (bname, kind), 'DeriveKey succeeded without the Derive Key bit', detail)
 
 
@@ -186,6 +193,9 @@ def run_variant(ctx, kind, label):
         root = d + '/s0.sqlite'
         srv = rig.Server(root)
         helper = store.register(srv, 'sym', 'alice', rng, names=['helper'], state='pre')
+        dh = store.register(srv, 'sym', 'alice', rng, names=['derive-helper'], masks=[M.DERIVE_KEY], state='pre')
+        if helper is not None and dh is not None:
+            DERIVE_HELPER[helper.uid] = dh.uid
         o = store.register(srv, kind, 'alice', rng, masks=masks, names=['obj-under-test'], state='pre')
         srv.close()
         if o is None or helper is None:
@@ -245,6 +255,10 @@ def run_random(ctx, case):
                 if o:
                     objs.append(o)
             helper = {u: store.register(srv, 'sym', u, rng, names=['helper-' + u], state='pre') for u in ('alice', 'bob')}
+            for u in ('alice', 'bob'):
+                dh = store.register(srv, 'sym', u, rng, names=['derive-helper-' + u], masks=[M.DERIVE_KEY], policy='open', state='pre')
+                if dh is not None and helper[u] is not None:
+                    DERIVE_HELPER[helper[u].uid] = dh.uid
 
             def states_now():
                 dmp = srv.dump()
